@@ -1,5 +1,6 @@
 import GqlgenVerif.Model.Naming
 import GqlgenVerif.Lemmas.Naming
+import GqlgenVerif.Lemmas.Emitted
 /-!
 # C17 — generated identifiers are valid and collision-free (the provable half of C17)
 
@@ -50,6 +51,58 @@ theorem leading_underscore_digit_witness :
     toGo (str "_1") = str "1" ∧ validIdent (toGo (str "_1")) = false ∧
     toGoPrivate (str "_1") = str "1" ∧ validIdent (toGo (str "__")) = false := by decide
 
+/-! ## …and holds on every name whose first non-underscore character is a letter -/
+
+/-- **toGo_valid_ident** (partial: hypothesis `StartsWithLetter`, which is exactly what excludes the witness above).
+For every name made of identifier characters (every GraphQL name is) whose first character after leading
+delimiters is a letter, `ToGo` returns a valid, exported Go identifier — hence never a keyword or a predeclared
+identifier, which are all lower case. What is missing for full strength: names `_+[0-9]…` (F17a). -/
+theorem toGo_valid_ident_partial (name : Name) (hchars : ∀ c ∈ name, isIdentChar c = true)
+    (hstart : StartsWithLetter name) : validIdent (toGo name) = true ∧ exported (toGo name) = true := by
+  obtain ⟨u, r, hx, hl, hu⟩ := walk_first false name hstart
+  have hall := flatMap_xform_chars false (walk name) (walk_chars name hchars)
+  unfold toGo
+  rw [startsWithLetter_ne_underscore name hstart]
+  simp only [Bool.false_eq_true, if_false]
+  rw [hx] at hall ⊢
+  refine ⟨?_, by simpa [exported] using hu rfl⟩
+  simp only [validIdent, Bool.and_eq_true, Bool.or_eq_true, List.all_eq_true]
+  exact ⟨Or.inl hl, fun x hxr => hall x (List.mem_cons_of_mem _ hxr)⟩
+
+/-- an exported identifier is not a Go keyword -/
+theorem exported_not_keyword (n : Name) (h : exported n = true) : goKeywords.contains n = false := by
+  cases hc : goKeywords.contains n with
+  | false => rfl
+  | true =>
+    have hall : ∀ k ∈ goKeywords, exported k = false := by decide
+    rw [hall n (by simpa using hc)] at h
+    cases h
+
+/-- `ToGoPrivate` under the same hypothesis: a valid identifier (and, by `toGoPrivate_not_keyword`, not a keyword) -/
+theorem toGoPrivate_valid_ident_partial (name : Name) (hchars : ∀ c ∈ name, isIdentChar c = true)
+    (hstart : StartsWithLetter name) : validIdent (toGoPrivate name) = true := by
+  obtain ⟨u, r, hx, hl, _⟩ := walk_first true name hstart
+  have hall := flatMap_xform_chars true (walk name) (walk_chars name hchars)
+  unfold toGoPrivate
+  rw [startsWithLetter_ne_underscore name hstart]
+  simp only [Bool.false_eq_true, if_false]
+  rw [hx] at hall ⊢
+  unfold sanitize
+  split
+  · simp only [List.cons_append, validIdent, Bool.and_eq_true, Bool.or_eq_true, List.all_eq_true]
+    refine ⟨Or.inl hl, fun x hxr => ?_⟩
+    rw [List.mem_append] at hxr
+    rcases hxr with hxr | hxr
+    · exact hall x (List.mem_cons_of_mem _ hxr)
+    · exact suffix_chars x hxr
+  · simp only [validIdent, Bool.and_eq_true, Bool.or_eq_true, List.all_eq_true]
+    exact ⟨Or.inl hl, fun x hxr => hall x (List.mem_cons_of_mem _ hxr)⟩
+
+/-- non-vacuity: the hypotheses hold for ordinary, keyword, initialism and underscore names -/
+example : StartsWithLetter (str "_user_id") ∧ StartsWithLetter (str "type") ∧ StartsWithLetter (str "HTTPServer") :=
+  ⟨⟨117, str "ser_id", by decide, by decide⟩, ⟨116, str "ype", by decide, by decide⟩, ⟨72, str "TTPServer", by decide, by decide⟩⟩
+example : toGo (str "_user_id") = str "UserID" ∧ toGo (str "type") = str "Type" ∧ toGoPrivate (str "HTTPServer") = str "httpServer" := by decide
+
 /-! ## the ToGoModelName registry hands out each name once -/
 
 /-- **modelName_injective_on_registry**: after ANY sequence of `ToGoModelName` / `ToGoPrivateModelName` calls from
@@ -70,5 +123,42 @@ theorem modelName_injective_from (primary : Name → Name) (r : Reg) (hr : RegIn
 distinct names -/
 example : (runCalls toGo [] [[str "MyEnum", str "value"], [str "MyEnum", str "Value"], [str "foo"], [str "Foo"], [str "FOO"]]).1
     = [some (str "MyEnumValue"), some (str "MyEnumValue0"), some (str "Foo"), some (str "Foo0"), some (str "Foo1")] := by decide
+
+/-! ## identifiers declared by the generated model file and resolver interfaces are duplicate free -/
+
+/-- **emitted_nodup_per_scope** (stated hypotheses = what GraphQL guarantees + what gqlgen does not claim to handle):
+for EVERY schema `ts`
+* `PkgHyp`: declaration keys pairwise distinct (unique type names, unique values per enum), every key got a name
+  (the fresh-name search of `goModelName` did not run out of the model's fuel), and no declared name equals
+  `All` + an enum's name (`All<Enum>` is written by the template without going through the registry);
+* the fields of each type normalise (`ToGo`) to pairwise distinct names (gqlgen does not handle `foo_bar` next to
+  `fooBar` in one type);
+then the package scope of the model file — type names, enum constants for values that normalise equally
+(`value`, `Value`, `VALUE`), `All…` variables — declares no identifier twice, and no struct of the model file
+declares a field twice; in particular two different types never end up as the same struct. -/
+theorem emitted_nodup_per_scope (ts : List TypeDecl) (H : PkgHyp ts)
+    (hfields : ∀ t ∈ ts, (t.fields.map (fun f => toGo f.name)).Nodup) :
+    (inScope Scope.pkg (emitted ts)).Nodup ∧ ∀ g, (inScope (Scope.struct g) (emitted ts)).Nodup :=
+  ⟨pkg_scope_nodup ts H, struct_scope_nodup ts H hfields⟩
+
+/-- resolver interface of one object type: its method names are the `ToGo` images of the field names, so they are
+pairwise distinct exactly when those are (scope key = the GraphQL type name: no registry involved) -/
+theorem resolver_methods_nodup (t : TypeDecl) (h : (t.fields.map (fun f => toGo f.name)).Nodup) :
+    (inScope (Scope.resolver t.name) (resolverBlock t)).Nodup := by
+  rw [resolver_block_methods]; exact h
+
+/-- parameters of one resolver method: the `ToGoPrivate` images of the argument names -/
+theorem resolver_args_nodup (t : TypeDecl) (f : FieldDecl) (hf : f ∈ t.fields) (hn : t.fields.Nodup)
+    (hinj : ∀ a ∈ t.fields, ∀ b ∈ t.fields, toGo a.name = toGo b.name → a = b)
+    (hargs : (f.args.map toGoPrivate).Nodup) :
+    (inScope (Scope.args t.name (toGo f.name)) (resolverBlock t)).Nodup := by
+  rw [resolver_block_args t f hf hinj hn]; exact hargs
+
+/-- non-vacuity of the hypotheses' shape: a concrete schema with colliding type names and enum values, on which the
+registry does the renaming -/
+example : (runCalls toGo [] (modelCalls [] [{ kind := .model, name := str "foo_bar" }, { kind := .model, name := str "FooBar" }]
+      [{ kind := .enum, name := str "E", values := [str "value", str "Value", str "VALUE"] }])).1.eraseDups
+    = [some (str "FooBar"), some (str "FooBar0"), some (str "E"), some (str "EValue"), some (str "EValue0"), some (str "EVALUE")] := by
+  decide
 
 end GqlgenVerif.Props.C17
